@@ -1,6 +1,7 @@
 CONSTANTS
   Fixed = TRUE
   MaxJumps = 16
+  ResetOnLabel = FALSE
   Dgrams <- DgCov
 SPECIFICATION PSpec
 INVARIANTS BoundedDepth NoUninit Terminates
